@@ -256,9 +256,11 @@ def rule_cfail(rep: Report, cu: CUnit, repo: Optional[Repo] = None) -> None:
     g = build_c_cfg(cu, 'Memory_run')
     n_checks = 0
     for node in g.nodes:
-        if node.kind == 'cond' and isinstance(node.ast, dict) and cu.src_of(node.ast).endswith('== CAUSE_PYTHON_ERROR'):
+        txt0 = cu.src_of(node.ast) if isinstance(node.ast, dict) else ''
+        if node.kind == 'cond' and (txt0.endswith('== CAUSE_PYTHON_ERROR') or txt0.endswith('!= CAUSE_PYTHON_ERROR')):
             n_checks += 1
-            t = [m for m, lab in g.succ[node.id] if lab == 'T'][0]
+            # the python-error arm: the true branch of `==`, the false branch of `!=`
+            t = [m for m, lab in g.succ[node.id] if lab == ('T' if txt0.endswith('== CAUSE_PYTHON_ERROR') else 'F')][0]
             # every path of the branch ends in `return NULL`; with a ring it frees the ring; an exception that is fetched
             # (to build the kept last-ops list) is restored before the return
             paths: List[List[str]] = []
